@@ -114,8 +114,11 @@ func TestVerifExpiry(t *testing.T) {
 			res := store.setShard(store.shards[idx], h, key, c+1, 1, newExp, false)
 			store.toPolicy(res, store.shards[idx], h, 1, newExp, false)
 			got := e.expire.Load()
-			tr.op("update", ss("3", i64(exp), i64(newExp)), ss(i64(got), b2s(res.reschedule)))
+			tr.op("update", ss("3", i64(exp), i64(newExp), i64(t1)), ss(i64(got), b2s(res.reschedule)))
 			w := exp
+			if ttl1 == 0 && exp <= t1 {
+				w = 0 // the earlier value had already expired: a fresh entry without TTL
+			}
 			if ttl1 != 0 {
 				w = t1 + ttl1
 				if w < t1 {
